@@ -436,6 +436,7 @@ def k_cursor(tname, meth):
     k = Kernel(f"cursor_{tname.lower()}_{meth}", "C08" if is_rows else "C09", find, build, post,
                f"{tname}::{meth} from an arbitrary cursor state: ideal answer, ideal remaining state (one step of the induction)")
     k.needs_state = True
+    k.replay = ("b_cursor", ["Rows", "RowsMut", "Col", "ColMut"].index(tname), ["next", "next_back", "nth", "nth_back", "size_hint"].index(meth))
     return k
 
 
